@@ -362,6 +362,8 @@ class Lib:
             return 'shim_count_char(%s, %s, %s)' % (P.ex(args[0]), P.ex(args[1]), P.ex(args[2]))
         if name == 'transform' and len(args) == 4 and self.tr.category(P.ty(args[0])) in ('iter', 'ptr'):
             return 'shim_transform_char(%s, %s, %s, %s)' % tuple(P.ex(a) for a in args)
+        if name == 'to_string' and len(args) == 1 and self.tr.category(P.ty(args[0])) == 'scalar':
+            return 'str_from_num((double)%s)' % P.ex(args[0])
         if name in ('move', 'forward'):
             return P.ex(args[0])
         if name in ('make_shared', 'make_unique'):
